@@ -1688,14 +1688,25 @@ namespace Clipper2Lib {
     OutPt* op2 = outrec->pts;
     if (op2->prev == op2->next->next) 
       return; // because triangles can't self-intersect
+
+    // repairing a 'micro self-intersection' (below) inserts a vertex whereas
+    // DoSplitOp removes one, and the two can undo each other for ever. So allow
+    // no more insertions than the path has vertices (then only DoSplitOp, which
+    // always shortens the path, is left and the loop must end).
+    size_t micro_budget = 0;
+    {
+      OutPt* op = op2;
+      do { ++micro_budget; op = op->next; } while (op != op2);
+    }
     for (; ; )
     {
       if (SegmentsIntersect(op2->prev->pt,
         op2->pt, op2->next->pt, op2->next->next->pt))
       {
-        if (SegmentsIntersect(op2->prev->pt,
+        if (micro_budget > 0 && SegmentsIntersect(op2->prev->pt,
           op2->pt, op2->next->next->pt, op2->next->next->next->pt))
         {
+          --micro_budget;
           // adjacent intersections (ie a micro self-intersections)
           op2 = DuplicateOp(op2, false);
           op2->pt = op2->next->next->next->pt;
